@@ -52,6 +52,14 @@ class SpecEval:
             self.err('cannot evaluate spec node %r' % (e,))
         return m(e)
 
+    def e_inpkg(self, e):
+        save = self.pkg
+        self.pkg = e[1]
+        try:
+            return self.eval(e[2])
+        finally:
+            self.pkg = save
+
     def e_num(self, e):
         return V(num(e[1]), 'Int', 'int')
 
@@ -573,6 +581,15 @@ class SpecEval:
     def b_atheader(self, args):
         """atheader(n, e): the value of e in the state at the header of loop n at the start of the current
         (for a postcondition: the last) iteration"""
+        if args[0][0] == 'num' and args[0][1] not in self.hdr and self.mode == 'assume' and self.old is not None:
+            # the postcondition of a callee, assumed at a call site: the callee's loop-header state is not visible
+            # here, so the value is some unknown of the same sort (the same one for every mention at this call)
+            v = self.nonpos(args[1])
+            cache = self.vc.__dict__.setdefault('_atheader_unknowns', {})
+            key = (id(self.st), repr(args))
+            if key not in cache:
+                cache[key] = self.vc.declare('atheader$u', v.sort)
+            return V(cache[key], v.sort, v.ts)
         if args[0][0] != 'num' or args[0][1] not in self.hdr:
             self.err('atheader(n, e): unknown loop %r' % (args[0],))
         envh, sth = self.hdr[args[0][1]]
